@@ -37,7 +37,7 @@ func (h *head) real() *proto.EntryId {
 	if h == nil {
 		return &proto.EntryId{Term: -1, Offset: -1}
 	}
-	return &proto.EntryId{Term: h.T - 1, Offset: h.O - 1}
+	return &proto.EntryId{Term: cluster.TermToReal(h.T), Offset: h.O - 1}
 }
 
 // TLC prints an empty function as [] and a non-empty one as an object
@@ -316,9 +316,9 @@ func (r *runner) compare(e *exp) (string, string) {
 				return "streams", fmt.Sprintf("stream %s>%s: appends in flight spec %v code %v", l, f, w.App, app)
 			}
 			for i := range app {
-				if app[i][0] != w.App[i].O-1 || app[i][1] != w.App[i].T-1 || app[i][2] != w.App[i].C-1 {
+				if app[i][0] != w.App[i].O-1 || app[i][1] != cluster.TermToReal(w.App[i].T) || app[i][2] != w.App[i].C-1 {
 					return "streams", fmt.Sprintf("stream %s>%s: append #%d spec (o=%d t=%d c=%d) code (o=%d t=%d c=%d) [spec numbering]",
-						l, f, i, w.App[i].O, w.App[i].T, w.App[i].C, app[i][0]+1, app[i][1]+1, app[i][2]+1)
+						l, f, i, w.App[i].O, w.App[i].T, w.App[i].C, app[i][0]+1, cluster.TermToSpec(app[i][1]), app[i][2]+1)
 				}
 			}
 			if len(ack) != len(w.Ack) {
@@ -382,7 +382,7 @@ func (r *runner) exec(st *step) error {
 			err error
 		}
 		ch := make(chan ntRes, 1)
-		go func() { h, err := s.NewTerm(st.N, st.T-1); ch <- ntRes{h, err} }()
+		go func() { h, err := s.NewTerm(st.N, cluster.TermToReal(st.T)); ch <- ntRes{h, err} }()
 		var h *proto.EntryId
 		var err error
 		deadline := time.Now().Add(r.timeout + 5*time.Second + slowSync)
@@ -415,7 +415,7 @@ func (r *runner) exec(st *step) error {
 			want := st.Head.real()
 			if h.Term != want.Term || h.Offset != want.Offset {
 				return fmt.Errorf("NewTerm(%s, %d) reported head (t=%d,o=%d), spec (t=%d,o=%d) [spec numbering]",
-					st.N, st.T, h.Term+1, h.Offset+1, st.Head.T, st.Head.O)
+					st.N, st.T, cluster.TermToSpec(h.Term), h.Offset+1, st.Head.T, st.Head.O)
 			}
 		}
 	case "BecomeLeader":
@@ -426,7 +426,7 @@ func (r *runner) exec(st *step) error {
 				fm[f] = hh.real()
 			}
 			r.blStarted[st.N] = true
-			s.BecomeLeaderStart(st.N, st.T-1, st.Rf, fm)
+			s.BecomeLeaderStart(st.N, cluster.TermToReal(st.T), st.Rf, fm)
 			// do not look into the controller while the handler is still attaching followers (it holds
 			// the lock and writes its cursor map): wait until it returned or every cursor it created has
 			// arrived at the wire
@@ -463,13 +463,13 @@ func (r *runner) exec(st *step) error {
 		}
 	case "CoElected":
 		for _, n := range st.Deleted {
-			if err := s.DeleteShard(n, st.T-1); err != nil {
+			if err := s.DeleteShard(n, cluster.TermToReal(st.T)); err != nil {
 				slog.Debug("delete shard", "err", err)
 			}
 		}
 	case "AddFollower":
 		if st.Sent {
-			_ = s.AddFollower(st.L, st.T-1, st.F, st.Head.real())
+			_ = s.AddFollower(st.L, cluster.TermToReal(st.T), st.F, st.Head.real())
 		}
 	case "Write":
 		if _, err := s.ClientWrite(st.N, st.V); err != nil {
@@ -632,7 +632,7 @@ func (r *runner) execFree(st *step) obs {
 	switch st.A {
 	case "NewTerm":
 		ch := make(chan obs, 1)
-		go func() { h, err := s.NewTerm(st.N, st.T-1); ch <- obs{ok: err == nil, head: h, err: err} }()
+		go func() { h, err := s.NewTerm(st.N, cluster.TermToReal(st.T)); ch <- obs{ok: err == nil, head: h, err: err} }()
 		deadline := time.Now().Add(r.timeout + 5*time.Second)
 		for {
 			select {
@@ -671,7 +671,7 @@ func sameOutcome(st *step, o obs) string {
 		w := st.Head.real()
 		if o.head.Term != w.Term || o.head.Offset != w.Offset {
 			return fmt.Sprintf("NewTerm(%s,%d) reported head (t=%d,o=%d), this order demands (t=%d,o=%d)", st.N, st.T,
-				o.head.Term+1, o.head.Offset+1, st.Head.T, st.Head.O)
+				cluster.TermToSpec(o.head.Term), o.head.Offset+1, st.Head.T, st.Head.O)
 		}
 	}
 	return ""
